@@ -447,6 +447,26 @@ func (r *runner) randomStrings(count int) {
 		if !lstr.HasSpecial(p) {
 			run("string.find", sv, str(p), inum(randPos(rr, n)))
 		}
+		// a number as the subject is converted to its text: the result is a string
+		// (never the number handed back), whatever part of the text is selected
+		if k%6 == 0 {
+			pool := []float64{0, 7, 42, 12345, -42, 1.5, -0.25, 1234567890123, 255}
+			nv := num(pool[rr.Intn(len(pool))])
+			pi, pj := randPos(rr, 6), randPos(rr, 6)
+			run("string.sub", nv, inum(1))
+			run("string.sub", nv, inum(1), inum(-1))
+			run("string.sub", nv, inum(pi), inum(pj))
+			run("string.sub", nv, inum(-100), inum(100))
+			run("string.upper", nv)
+			run("string.lower", nv)
+			run("string.reverse", nv)
+			run("string.len", nv)
+			run("string.rep", nv, inum(int64(rr.Intn(4))))
+			run("string.rep", nv, inum(1))
+			run("string.byte", nv, inum(1), inum(-1))
+			run("string.find", nv, strs("2"), inum(1), boolv(true))
+			run("string.find", nv, num(2), inum(1), boolv(true))
+		}
 	}
 }
 
